@@ -32,13 +32,15 @@ impl Drop for RouterSocket {
 #[async_trait]
 impl Socket for RouterSocket {
     fn with_options(options: SocketOptions) -> Self {
-        let fair_queue = FairQueue::new(true);
+        let mut fair_queue = FairQueue::new(true);
+        let backend = Arc::new(GenericSocketBackend::with_options(
+            Some(fair_queue.inner()),
+            SocketType::ROUTER,
+            options,
+        ));
+        crate::backend::forget_ended_peers(&mut fair_queue, &backend);
         Self {
-            backend: Arc::new(GenericSocketBackend::with_options(
-                Some(fair_queue.inner()),
-                SocketType::ROUTER,
-                options,
-            )),
+            backend,
             binds: HashMap::new(),
             fair_queue,
         }
